@@ -407,11 +407,27 @@ func checkC09(c *c09Case, r *vstat.Run) outcome {
 	close(start)
 	finished := make(chan struct{})
 	go func() { wg.Wait(); close(finished) }()
-	select {
-	case <-finished:
-	case <-time.After(6 * hangLimit):
-		// the calls are short (milliseconds): goroutines that have not come back after minutes are blocked
-		return violationf("deadlock", "the concurrent calls of this workload did not all return within %v: some call blocks for ever", 6*hangLimit)
+	// the calls are short (milliseconds). Goroutines that have not come back after two minutes *during which this
+	// process used next to no CPU time* are blocked; as long as it is busy it is merely slow (the driver's time
+	// budget deals with that).
+	idle, lastCPU := 0, processCPU()
+wait:
+	for {
+		select {
+		case <-finished:
+			break wait
+		case <-time.After(10 * time.Second):
+			cpu := processCPU()
+			if cpu-lastCPU < 500*time.Millisecond {
+				idle++
+			} else {
+				idle = 0
+			}
+			lastCPU = cpu
+			if idle >= 12 {
+				return violationf("deadlock", "the concurrent calls of this workload have not all returned and the process has been idle for two minutes: some call blocks for ever")
+			}
+		}
 	}
 	if r != nil {
 		r.JournalDone()
@@ -543,6 +559,26 @@ func TestC09(t *testing.T) {
 			if o.Kind != "rules" && o.Kind != "ebnf" && len(o.Inputs) > 0 {
 				// an input with something after a complete parse (what AllowTrailing is about)
 				o.Inputs = append(o.Inputs, o.Inputs[0]+" "+o.Inputs[len(o.Inputs)-1])
+			}
+			if o.Kind == "grammar" {
+				// cost guard (ambiguous recursive grammars backtrack exponentially, see known finding F19): keep the
+				// inputs the reference parser gets through within its step budget
+				if b, err := gram.Build(o.G); err == nil {
+					var keep []string
+					for _, in := range o.Inputs {
+						if lx, err := b.Lex(in); err == nil {
+							if _, _, _, _, expensive := runModel(b, lx, false); expensive {
+								r.Count("skipped_expensive")
+								continue
+							}
+						}
+						keep = append(keep, in)
+					}
+					if len(keep) == 0 {
+						keep = []string{""}
+					}
+					o.Inputs = keep
+				}
 			}
 			c.Objects = append(c.Objects, o)
 		}
